@@ -43,6 +43,7 @@ ASSUMPTIONS = [
 ]
 REQUIRED = ["roundtrips", "src_text", "src_bytes", "src_path", "offset_0", "offset_big",
             "rounding_tie_values", "comments_compared", "audit_file_opens", "rewrites_same_object",
+            "trees_with_int64_ids",
             "tap_to_swc", "tap_parse_swc", "tap_reset_index_"]
 FLOOR = {"quick": 600, "thorough": 12000}
 SHARDS = {"quick": 8, "thorough": 16}
@@ -62,6 +63,8 @@ COMMENT_SETS = [
     ["only blank", " "],
     [f"line {i}" for i in range(50)],
     ["source: not the header", "columns are id type x y z r pid"],
+    # characters that str.splitlines (but not a text file) treats as line ends
+    ["form\x0cfeed", "unit\x1fsep nel\x85x", "ls\u2028ps\u2029end", "vt\x0bx"],
 ]
 
 
@@ -107,6 +110,12 @@ def _exec(ctx, case, tmp):
     comments = list(COMMENT_SETS[case["cset"]])
     tree = G.build(spec, with_tag=False, comments=list(comments), source=case.get("tsource", ""))
     n = len(spec["pid"])
+    if case.get("wide_ids"):
+        # what sort_tree / cat_tree / redirect_tree return: 64-bit id and pid columns
+        tree.ndata["id"] = tree.ndata["id"].astype(np.int64)
+        tree.ndata["pid"] = tree.ndata["pid"].astype(np.int64)
+        ctx.count("trees_with_int64_ids")
+    cols_before = {k: v.copy() for k, v in tree.ndata.items()}
     want = {k: ref_round(spec[k]) for k in "xyzr"}
     if case["vclass"] in ("ties", "dyadic_ties"):
         ctx.count("rounding_tie_values", 4 * n)
@@ -197,6 +206,10 @@ def _exec(ctx, case, tmp):
         if tree.comments != comments:
             return ctx.violation("writer-mutates-tree", f"{what}: writing changed the tree's own "
                                                         f"comment list to {tree.comments[:5]!r}", case)
+        for k, v in cols_before.items():
+            if not np.array_equal(tree.ndata[k], v) or tree.ndata[k].dtype != v.dtype:
+                return ctx.violation("writer-mutates-tree", f"{what}: writing changed the tree's "
+                                                            f"own column {k!r}", case)
 
 
 def execute(ctx, case):
@@ -237,10 +250,21 @@ def run(ctx):
                     "vseed": int(rng.integers(0, 2**31 - 1)),
                     "cset": int(rng.integers(0, len(COMMENT_SETS))),
                     "tsource": str(rng.choice(["", "", "/data/neuron.swc"])),
+                    "wide_ids": bool(rng.random() < 0.35),
                     "writes": writes}
             ctx.case(case, nontrivial=rc["n"] >= 2 and rc["shape"] != "single",
                      klass=f"{case['vclass']}/{rc['shape']}")
             execute(ctx, case)
+        for j, rc in enumerate(G.real_recipes(rng, 1000 if ctx.quick else None)):
+            if j % ctx.nshards == ctx.shard:  # real morphologies shipped with the repository
+                case = {"tree": rc, "vclass": "plain", "vseed": 1, "cset": 2,
+                        "tsource": "/data/real.swc",
+                        "writes": [{"offset": 1, "kind": "path", "source": None, "comments": None},
+                                   {"offset": 0, "kind": "bytes", "source": False,
+                                    "comments": True}]}
+                ctx.case(case, klass="real-morphology")
+                ctx.count("real_morphologies")
+                execute(ctx, case)
         if ctx.shard == 0:
             for shape, n in (("chain", 10000 if ctx.quick else 100000), ("star", 200)):
                 rc = {"shape": shape, "n": n, "numbering": "sorted", "geom": "growth",
